@@ -11,7 +11,7 @@ Seed == atoi(IOEnv.SEED)
 B2N(b) == IF b THEN 1 ELSE 0
 Dist6(r) == B2N(r.st # H6.st) + B2N(r.err # H6.err) + B2N(r.enc # H6.enc) + B2N(r.key # H6.key) + B2N(r.nonce # H6.nonce)
             + B2N(r.id # H6.id) + B2N(r.pk # H6.pk) + B2N(r.sigp # H6.sigp) + B2N(r.signer # H6.signer) + B2N(r.info # H6.info)
-            + B2N(r.corrupt # H6.corrupt) + B2N(r.cut # H6.cut)
+            + B2N(r.corrupt # H6.corrupt) + B2N(r.alter # H6.alter) + B2N(r.cut # H6.cut)
 
 WireNames(w) == [k \in 1..Len(w) |-> w[k].t]
 Case(fam, a, b, c, dist) ==
@@ -32,7 +32,10 @@ ExportCases ==
     /\ TLCGet("stats").generated >= 0
     /\ ndJsonSerialize(IOEnv.CASES_OUT \o ".m2", SetToSeq({ Case("m2", a, H4, H6, 0) : a \in M2Space }))
     /\ ndJsonSerialize(IOEnv.CASES_OUT \o ".m4",
-                       SetToSeq(UNION { { Case("m4", a, b, H6, 0) : b \in M4Space } : a \in { x \in M2Space : R2(x)[1] = "pass" } }))
+                       \* every M4 after the honest M2; the honest M4 (the accessory's own proof) after every M2 that passes M2
+                       SetToSeq({ Case("m4", H2, b, H6, 0) : b \in M4Space }
+                                \cup { Case("m4", a, H4, H6, 0) : a \in { x \in M2Space : R2(x)[1] = "pass" } }))
+    /\ ndJsonSerialize(IOEnv.CASES_OUT \o ".m6-extra", SetToSeq({ Case("m6", H2, H4, r, Dist6(r)) : r \in Extra6 }))
     /\ \A hi \in DOMAIN HeadSeq :
           ndJsonSerialize(IOEnv.CASES_OUT \o ".m6-" \o ToString(hi),
                           SetToSeq({ Case("m6", H2, H4, c[1], Dist6(c[1])) : c \in Part6(hi) }))
